@@ -46,7 +46,8 @@ def check(run, P):
     run.rule("C17.prematch", "pre-supplied bindings are validated and form one "
              "conjunctive record", minimum=3)
     run.rule("C17.free", "default free variables = template variables minus bound "
-             "names; the unifier is built with exactly that set", minimum=2)
+             "names, used only when none were given; the unifier is built with exactly "
+             "that set", minimum=3)
     run.rule("C17.nomatch", "the first record is taken only after the emptiness test "
              "that raises ValueError", minimum=1)
     _map_call(run, P)
@@ -148,8 +149,14 @@ def _map_call(run, P):
            why="a unification whose result is dropped, or that starts from a fresh "
                "record list, loses or ignores bindings")
     fsym = [x for x in recs if norm(x.args[0]) == f"{e}.function" and norm(x.args[1]) == f"{o}.function"]
-    run.ob("C17.thread", f, fsym[0] if fsym else f.node, bool(fsym),
-           construct="function symbols are unified: self.rec(expr.function, other.function, urecs)",
+    fs_nodes = [n for n in g.nodes if n.kind == "stmt" and fsym and any(
+        x is fsym[0] for x in walk_fragment(n.ast))]
+    ret_nodes = [n for n in g.nodes if n.kind == "stmt" and isinstance(n.ast, ast.Return)
+                 and n.ast.value is not None and norm(n.ast.value) == u]
+    every_path = bool(fs_nodes) and bool(ret_nodes) and not g.always_preceded(ret_nodes, fs_nodes)
+    run.ob("C17.thread", f, fsym[0] if fsym else f.node, bool(fsym) and every_path,
+           construct="function symbols are unified on every path that returns the records: "
+                     "self.rec(expr.function, other.function, urecs)",
            why="f(x) must not match g(x) unless f is a free variable bound to g")
     rets = [s_ for s_ in func_body_stmts(f.node) if isinstance(s_, ast.Return)]
     ok = bool(rets) and norm(rets[-1].value) == u
@@ -270,6 +277,19 @@ def _match(run, P):
            why="binding direction")
     ok = has("free_variable_names = get_variables(template, include_function_symbols=True)", f.node) \
         and has("free_variable_names -= set(bound_variable_names)", f.node)
+    dflt = [n for n in ast.walk(f.node) if isinstance(n, ast.If) and any(
+        has("free_variable_names = get_variables(template, include_function_symbols=True)", s_)
+        for s_ in n.body)]
+    only_none = bool(dflt) and all(norm(n.test) == "free_variable_names is None" for n in dflt)
+    rebinds = [n for n in ast.walk(f.node) if isinstance(n, (ast.Assign, ast.AugAssign))
+               and any(dotted(t) == "free_variable_names"
+                       for t in (n.targets if isinstance(n, ast.Assign) else [n.target]))]
+    inside = all(any(x is n for d_ in dflt for x in ast.walk(d_)) for n in rebinds)
+    run.ob("C17.free", f, dflt[0] if dflt else f.node, only_none and inside,
+           construct="the default applies only when free_variable_names is None; a given "
+                     "collection (empty included) is used as it is",
+           why="an explicitly empty declaration means nothing may be bound; treating it "
+               "as absent makes every template variable a candidate")
     run.ob("C17.free", f, f.node, ok,
            construct="default: variables of the template (incl. function symbols) minus bound names",
            why="only declared free variables may be bound")
